@@ -124,6 +124,36 @@ static void print_gme_body(const Operator& op, unsigned M) {
         }
     }
 }
+// the vector form getMatrixElement(bra, ket, states) with unit vectors over a list of basis states given in ANY order (ascending,
+// descending, scrambled, a scrambled subset): <e_i| op |e_j> must be getMatrixElement(states[i], states[j]).  Prints the number of
+// (ordering, i, j) that differ and the first of them.
+static void print_gmevec(const char* tag, const Operator& op, unsigned M) {
+    unsigned long n = 1ul << M;
+    long bad = 0, total = 0; char first[200]; first[0] = 0;
+    for (int ordering = 0; ordering < 4; ++ordering) {
+        std::vector<FockState> states;
+        unsigned long cnt = std::min(n, 16ul);
+        for (unsigned long k = 0; k < cnt; ++k) {
+            unsigned long v = ordering == 0 ? k : ordering == 1 ? (cnt - 1 - k) : ordering == 2 ? ((k * 5 + 3) % cnt) : ((k * 7 + 1) % n);
+            if (ordering == 3 && k >= (cnt + 1) / 2) break;      // a scrambled subset of the space
+            states.push_back(FockState(M, v));
+        }
+        int d = int(states.size());
+        for (int i = 0; i < d; ++i) for (int j = 0; j < d; ++j) {
+            VectorType bra = VectorType::Zero(d), ket = VectorType::Zero(d);
+            bra(i) = 1.0; ket(j) = 1.0;
+            MelemType v = op.getMatrixElement(bra, ket, states), w = op.getMatrixElement(states[i], states[j]);
+            ++total;
+            if (v != w) {
+                if (!bad) snprintf(first, sizeof first, "ordering=%s bra=%lu ket=%lu vector-form=%s pair-form=%s",
+                                   ordering == 0 ? "ascending" : ordering == 1 ? "descending" : ordering == 2 ? "scrambled" : "scrambled-subset",
+                                   states[i].to_ulong(), states[j].to_ulong(), pv::hexd(std::real(ComplexType(v))).c_str(), pv::hexd(std::real(ComplexType(w))).c_str());
+                ++bad;
+            }
+        }
+    }
+    printf("GMEVEC %s %ld %ld %s\n", tag, total, bad, bad ? first : "-");
+}
 static void print_gme(const char* tag, const Operator& op, unsigned M) { printf("%s", tag); print_gme_body(op, M); printf("\n"); }
 static void print_alias(const char* name, const Operator& op, unsigned M) {
     printf("ALIAS %s", name); print_mat(" MAT", op, M);   // print_mat ends the line
@@ -215,6 +245,7 @@ int main(int argc, char* argv[]) {
             print_mat("MATADD", ADD, M); print_mat("MATSUB", SUB, M); print_mat("MATCOMM", COMM, M); print_mat("MATACOMM", ACOMM, M);
             print_gme("GMEA", A, M); print_gme("GMEB", B, M); print_gme("GMEMUL", AB, M);
             print_gme("GMEADD", ADD, M); print_gme("GMESUB", SUB, M); print_gme("GMECOMM", COMM, M); print_gme("GMEACOMM", ACOMM, M);
+            print_gmevec("A", A, M); print_gmevec("A*B", AB, M);
         }
         for (size_t i = 0; i < sp.size(); ++i) {
             printf("SPECDIAG %d", sp[i].kind);
